@@ -654,6 +654,42 @@ fn check_c10_with(c: &Case, dup: bool) -> Check {
     if ont.gene_by_name("no such gene").is_some() {
         return Err("gene_by_name finds a gene that does not exist".into());
     }
+    // ontologies loaded from binary files (independent v1/v2/v3 encoder, both record orders, also with an unnamed term as
+    // the LAST record of the term section): every term the file describes is found with its name, nothing else is,
+    // len and iter agree. A file that does not load is C08's to report.
+    if !dup && c.idmap == 0 && c.n >= 2 && c.edges & 1 == 1 {
+        for version in [1u8, 2, 3] {
+            let mut cv = c.clone();
+            if version < 3 {
+                cv.facts.retain(|f| f.0 != 2);
+            }
+            for reverse in [false, true] {
+                let last = if reverse { 0 } else { m.n - 1 };
+                for rename in [None, Some(EMPTY_NAME + last)] {
+                    let enc = Enc { version, reverse, flags: vec![(false, 0); c.n], rename_term: rename, rename_rec: None };
+                    let o = match load(&encode(&cv, &enc)) {
+                        Ok(Ok(o)) => o,
+                        _ => continue,
+                    };
+                    let what = format!("v{version} file (records reversed: {reverse}, last term unnamed: {})", rename.is_some());
+                    for t in 0..m.n {
+                        let exp_name = if rename == Some(EMPTY_NAME + t) { String::new() } else { name255(&name_of(t)) };
+                        let got = o.hpo(m.ids[t]).map(|h| h.name().to_string());
+                        expect(&format!("{what}: hpo({})", m.ids[t]), got, Some(exp_name))?;
+                    }
+                    for p in [0u32, 2, 117, 119, 9_999_999, 10_000_000, u32::MAX] {
+                        if !present.contains(&p) && o.hpo(p).is_some() {
+                            return Err(format!("{what}: hpo({p}) finds a term the file does not describe"));
+                        }
+                    }
+                    expect(&format!("{what}: len()"), o.len(), m.n)?;
+                    let mut seen: Vec<u32> = o.iter().map(|t| t.id().as_u32()).collect();
+                    seen.sort_unstable();
+                    expect(&format!("{what}: iter()"), seen, present.iter().copied().collect::<Vec<u32>>())?;
+                }
+            }
+        }
+    }
     Ok(())
 }
 
